@@ -321,6 +321,7 @@ class Case:
         self.alias = False       # build equal sub-containers as one shared Go object
         self.pad = None          # with keyc: (n1, n2) blanks before / after: the text is Coq padded_path
         self.nodollar = False    # with keyc: the text is Coq chain_path0 (leading $ omitted)
+        self.keyf = None         # with keyc: [function name code points]: the text is Coq chain_fun_path (steps, then .name() each)
         self.keyc = None         # [(quote code point or 0 for the dot spelling, key code points)]: path == Coq chain_path
         self.keyq = None         # (quote code point, key code points): the driver confirms path == Coq key_path
 
@@ -366,6 +367,8 @@ class Case:
                 parts.append('(nodollar 1)')
             if self.pad:
                 parts.append('(pad %d %d)' % self.pad)
+        if self.keyf:
+            parts.append('(keyf %s)' % ' '.join('(%s)' % ' '.join(str(x) for x in f) for f in self.keyf))
         parts.append('(mode %s))' % self.mode)
         return ' '.join(parts)
 
